@@ -415,7 +415,7 @@ func init() {
 		specs = append(specs,
 			Spec{Name: "health-mixed-T256", Kind: "mixed", T: 256, L: 3, Keys: 2, Classes: []string{"t", "limA+", "A:limA-,limA-", "A:t"}, Oracles: or, Depth: d},
 			Spec{Name: "health-wrapped-T256", Kind: "mixed", T: 256, L: 2, Keys: 2, Classes: []string{"s:limA+", "s:A:limA-,limA-", "ss:A:limA-,limA-", "s:M:limM,limM"}, Oracles: or, Depth: d},
-			Spec{Name: "health-split-T256", Kind: "mixed", T: 256, L: 5, Keys: 4, Classes: []string{"limM"}, Oracles: or, Depth: d + 3},
+			Spec{Name: "health-split-T256", Kind: "mixed", T: 256, L: 5, Keys: 4, Classes: []string{"limM", "t"}, Oracles: or, Depth: d + 2},
 		)
 		for ai, a := range DigestAssignments(3) {
 			if !r.Thorough() && ai%6 != 0 {
